@@ -773,4 +773,42 @@ theorem bad_char_inner_rejected (c : Char) (hb : isBad c = true) (s : List Char)
       simp only [buildAtoms, hbuild, bind, Except.bind]
       exact ⟨e, rfl⟩
 
+/-- an OR list whose alternatives are not all of one primitive kind is never accepted, whatever its length and wherever the odd
+    item stands -/
+theorem applyNumPrim_mixed (out : Parsed) (ps : List (List Char)) (f g : Char) (r1 r2 : List Char)
+    (hx : (f :: r1) ∈ ps) (hy : (g :: r2) ∈ ps) (hfg : f ≠ g) : ∀ o, applyNumPrim out ps ≠ .ok o := by
+  intro o he
+  have hlen : (ps.length != 1) = true := by
+    cases ps with
+    | nil => cases hx
+    | cons a t =>
+      cases t with
+      | nil =>
+        simp only [List.mem_singleton] at hx hy
+        rw [← hx] at hy
+        injection hy with e _
+        exact absurd e.symm hfg
+      | cons _ _ => simp
+  unfold applyNumPrim at he
+  simp only [hlen, if_true, Bool.true_and] at he
+  split at he
+  · cases he
+  · rename_i fcs hfc
+    split at he
+    · cases he
+    · rename_i hsame
+      simp only [Bool.not_eq_true', Bool.not_eq_false'] at hsame
+      have hf := firstChars_mem ps fcs hfc f r1 hx
+      have hg := firstChars_mem ps fcs hfc g r2 hy
+      cases fcs with
+      | nil => cases hf
+      | cons t tl =>
+        have hs : allSame (t :: tl) = true := by
+          cases h : allSame (t :: tl) with
+          | true => rfl
+          | false => exact absurd h hsame
+        have e1 := allSame_mem t tl hs f hf
+        have e2 := allSame_mem t tl hs g hg
+        exact hfg (e1.trans e2.symm)
+
 end ChythonModel.Proofs.C08
